@@ -4,3 +4,4 @@ import MySensors.Model.Rule
 import MySensors.Model.Codec
 import MySensors.Generated.Tables
 import MySensors.Driver.Main
+import MySensors.Properties.C09
